@@ -11,6 +11,7 @@ import (
 	"polycheck/eng"
 	"polycheck/ob"
 	"polycheck/props"
+	mc "polycheck/props/meshcommon"
 	"polycheck/ssau"
 )
 
@@ -223,6 +224,7 @@ func run(c *props.Ctx) {
 		a.checkBuilders()
 	}
 	checkBVH(c)
+	primitiveScopes(c)
 	c.R.Floor("KEY-1", 2)
 	c.R.Floor("ORD-3", 1)
 	c.R.Floor("CHILD-1", 7)
@@ -235,6 +237,24 @@ func run(c *props.Ctx) {
 			fmt.Printf("  [%s] %-8s %-60s %s %s\n", o.Verdict, o.Rule, o.Construct, o.Msg, fmt.Sprint(o.Facts))
 		}
 	}
+}
+
+// primitiveScopes: the elements the trees are built over (modeling.Tri / Line / Point scopes and their
+// geometry helpers in tri.go, line.go, point.go) fetch their corners through the vertex ids of the index array:
+// index-space typing (IDX-1 attribute data never subscripted by an index position, IDX-3 the index array never
+// by a vertex id, IDX-6 a vertex id never offset by a constant) restricted to those three anchored files. A
+// primitive whose corner is taken from the wrong space answers queries for a different segment / triangle than
+// the one exhaustive search measures — invisible on identity-indexed meshes.
+func primitiveScopes(c *props.Ctx) {
+	fns := mc.ScopeFuncs(c, "modeling")
+	x := eng.NewIdx(mc.ModelingPath)
+	x.Analyse(fns)
+	own := func(s eng.IdxSite) bool {
+		rel := c.P.RelFile(s.Fn.Pos())
+		return rel == "modeling/tri.go" || rel == "modeling/line.go" || rel == "modeling/point.go"
+	}
+	mc.ReportIdx(c, x, own, map[string]bool{}, map[string]bool{})
+	c.R.Floor("IDX-1", 8)
 }
 
 func ord2(c *props.Ctx, fns []*ssa.Function) {
